@@ -2,7 +2,8 @@
     the stated error and byte count, and never panics.
 
     Same model and specification as C06 (Model/Pbcmpl.v as repaired by /repo 815cf27,
-    Spec/PbcmplSpec.v).  Readers are ANY list of non-empty chunks plus a terminal
+    Spec/PbcmplSpec.v).  Readers are ANY finite list of chunks ([chunks_ok]: empty
+    chunks = Reads returning (0, nil) allowed anywhere but at the very end) plus a terminal
     condition [t] (io.EOF or an injected read error, reported after the last chunk or
     together with it), so "a strict prefix of a frame, chunked anyhow, ending in
     io.EOF" and "a read error injected at offset k" are both instances.  Writers are
@@ -10,11 +11,12 @@
     universally quantified and completely arbitrary here (no premise): none of these
     statements depends on what proto.Unmarshal does.  Unbounded in payload length and
     chunking; hypothesis "stream shorter than 2^63 bytes" = Go's int64 count.
-    [fuel]: loop bound of the executable model, any value >= |stream| + 2. *)
+    [fuel]: loop bound of the executable model, any value >= |stream| + number of chunks + 2. *)
 From Coq Require Import ZArith List Bool.
 From Low Require Import Lib.BitSeq Lib.Bytes Model.Pbcmpl Model.LegacyPbcmpl Spec.PbcmplSpec
   Proofs.PbcmplIO Proofs.PbcmplHeader Proofs.PbcmplProofs Proofs.PbcmplMarshal
-  Proofs.PbcmplFrames Proofs.PbcmplStream Proofs.PbcmplLegacy.
+  Proofs.PbcmplFrames Proofs.PbcmplStream Proofs.PbcmplHistory Proofs.PbcmplLegacy.
+From Low Require Import Lib.Val Run.PbcmplOps Model.PbcmplEncErr Model.PbcmplWalk Spec.PbcmplWalkSpec Proofs.PbcmplWalk Run.PbcmplWalkOps Proofs.PbcmplOpsC07.
 Import ListNotations.
 Open Scope Z_scope.
 
@@ -25,7 +27,7 @@ Theorem C07_unmarshal_exact : forall (Msg : Type) (dec : list Z -> option Msg) g
   (forall c, 0 < c -> c < grow c) ->
   forall cs t fuel,
   chunks_ok cs -> bytes_ok (concat cs) -> zlen (concat cs) < 2 ^ 63 ->
-  (length (concat cs) + 2 <= fuel)%nat ->
+  (length cs + length (concat cs) + 2 <= fuel)%nat ->
   exists n ver err m cs',
     Unmarshal dec cread grow fuel (cs, t) = Some (n, ver, err, m, (cs', t))
     /\ chunks_ok cs'
@@ -42,7 +44,7 @@ Theorem C07_cut : forall (Msg : Type) (enc : Msg -> list Z) (dec : list Z -> opt
   bytes_ok ver -> bytes_ok (enc m) -> zlen (enc m) < 2 ^ 63 - 32 ->
   0 <= k < 32 + zlen (enc m) ->
   chunks_ok cs -> concat cs = firstn (Z.to_nat k) (frame ver (enc m)) ->
-  (length (concat cs) + 2 <= fuel)%nat ->
+  (length cs + length (concat cs) + 2 <= fuel)%nat ->
   Unmarshal dec cread grow fuel (cs, t)
     = Some (k, (if k <? 32 then [] else ver),
             Some (if k <? 32 then end_err t k EEOF else end_err t (k - 32) EEOF), None, ([], t)).
@@ -61,7 +63,7 @@ Theorem C07_cut_eof : forall (Msg : Type) (enc : Msg -> list Z) (dec : list Z ->
   bytes_ok ver -> bytes_ok (enc m) -> zlen (enc m) < 2 ^ 63 - 32 ->
   0 <= k < 32 + zlen (enc m) ->
   chunks_ok cs -> concat cs = firstn (Z.to_nat k) (frame ver (enc m)) ->
-  (length (concat cs) + 2 <= fuel)%nat ->
+  (length cs + length (concat cs) + 2 <= fuel)%nat ->
   Unmarshal dec cread grow fuel (cs, t)
     = Some (k, (if k <? 32 then [] else ver),
             Some (if (k =? 0) || (k =? 32) then EEOF else EUnexpectedEOF), None, ([], t)).
@@ -77,7 +79,7 @@ Theorem C07_cut_readerr : forall (Msg : Type) (enc : Msg -> list Z) (dec : list 
   bytes_ok ver -> bytes_ok (enc m) -> zlen (enc m) < 2 ^ 63 - 32 ->
   0 <= k < 32 + zlen (enc m) ->
   chunks_ok cs -> concat cs = firstn (Z.to_nat k) (frame ver (enc m)) ->
-  (length (concat cs) + 2 <= fuel)%nat ->
+  (length cs + length (concat cs) + 2 <= fuel)%nat ->
   Unmarshal dec cread grow fuel (cs, t)
     = Some (k, (if k <? 32 then [] else ver), Some (t_err t), None, ([], t)).
 Proof. exact Unmarshal_cut_readerr. Qed.
@@ -90,7 +92,7 @@ Theorem C07_hsize : forall (Msg : Type) (dec : list Z -> option Msg) grow,
   forall cs t fuel,
   chunks_ok cs -> bytes_ok (concat cs) -> zlen (concat cs) < 2 ^ 63 ->
   32 <= zlen (concat cs) -> le_val (firstn 8 (skipn 16 (concat cs))) <> 32 ->
-  (length (concat cs) + 2 <= fuel)%nat ->
+  (length cs + length (concat cs) + 2 <= fuel)%nat ->
   exists cs',
     Unmarshal dec cread grow fuel (cs, t)
       = Some (32, strip_nul (firstn 16 (concat cs)), Some EInvalidHeaderSize, None, (cs', t))
@@ -106,7 +108,7 @@ Theorem C07_bsize : forall (Msg : Type) (dec : list Z -> option Msg) grow,
   chunks_ok cs -> bytes_ok (concat cs) -> zlen (concat cs) < 2 ^ 63 ->
   32 <= zlen (concat cs) -> le_val (firstn 8 (skipn 16 (concat cs))) = 32 ->
   2 ^ 63 <= le_val (firstn 8 (skipn 24 (concat cs))) ->
-  (length (concat cs) + 2 <= fuel)%nat ->
+  (length cs + length (concat cs) + 2 <= fuel)%nat ->
   exists cs',
     Unmarshal dec cread grow fuel (cs, t)
       = Some (32, strip_nul (firstn 16 (concat cs)), Some EInvalidBodySize, None, (cs', t))
@@ -124,7 +126,7 @@ Theorem C07_total : forall (Msg : Type) (dec : list Z -> option Msg) grow,
   (forall c, 0 < c -> c < grow c) ->
   forall cs t fuel,
   chunks_ok cs -> bytes_ok (concat cs) -> zlen (concat cs) < 2 ^ 63 ->
-  (length (concat cs) + 2 <= fuel)%nat ->
+  (length cs + length (concat cs) + 2 <= fuel)%nat ->
   exists n ver err m cs',
     Unmarshal dec cread grow fuel (cs, t) = Some (n, ver, err, m, (cs', t))
     /\ 0 <= n <= zlen (concat cs)
@@ -184,6 +186,116 @@ Theorem C07_writer_every_point : forall (Msg : Type) (enc : Msg -> list Z) (m : 
       = Some (k, Some EInjected, (script', firstn (Z.to_nat k) (frame (ver_of ver) (enc m)))).
 Proof. exact Marshal_fails_at. Qed.
 Print Assumptions C07_writer_every_point.
+
+(** widening — whole histories on ARBITRARY bytes: calling Unmarshal again and again on
+    one reader until the first error (the way a read-until-EOF loop uses the package)
+    yields exactly the steps of the flat-stream specification and leaves exactly the
+    bytes it says — for every chunking, every terminal condition, each of the three
+    decoders of the harness (raw, BytesValue, picky raw), with NO premise on the bytes *)
+Theorem C07_stream_exact : forall kind cs t,
+  chunks_ok cs -> bytes_ok (concat cs) -> zlen (concat cs) < 2 ^ 63 ->
+  exists steps cs',
+    c_Stream kind (cs, t) = Some (steps, (cs', t))
+    /\ chunks_ok cs'
+    /\ spec_Stream (k_dec kind) EEOF payload_opt (concat cs) t = (steps, concat cs').
+Proof. exact c_Stream_spec. Qed.
+Print Assumptions C07_stream_exact.
+
+(** the protocol's compact description of a chunking is a chunking into non-empty chunks *)
+Theorem C07_chunks_of : forall pat s,
+  all_pos pat = true -> concat (chunks_of pat s) = s /\ chunks_ok (chunks_of pat s).
+Proof. exact chunks_of_ok. Qed.
+Print Assumptions C07_chunks_of.
+
+(** ... hence, for the three protocol operations of C07 exactly as Run/C07.v runs them:
+    on every in-domain argument the value computed from the model IS the value
+    computed from the specification (the verdict MODELBUG is impossible, and OK
+    means the implementation returned the specification's value) *)
+Theorem C07_op_stream : forall kind s pat t,
+  bytes_ok s -> all_pos pat = true -> zlen s < 2 ^ 63 ->
+  v_stream_model kind (chunks_of pat s, t) = v_stream_spec kind EEOF s t.
+Proof. exact v_stream_model_spec. Qed.
+Print Assumptions C07_op_stream.
+
+Theorem C07_op_chunks : forall kind cs t,
+  chunks_ok cs -> bytes_ok (concat cs) -> zlen (concat cs) < 2 ^ 63 ->
+  v_stream_model kind (cs, t) = v_stream_spec kind EEOF (concat cs) t.
+Proof. exact v_stream_model_chunks. Qed.
+Print Assumptions C07_op_chunks.
+
+(** non-vacuity of "empty chunks": a reader that returns (0, nil) before the first byte,
+    twice at the header/body boundary and once inside the body; the frame comes back, and
+    the same reader cut one byte short reports io.ErrUnexpectedEOF with n = 34 *)
+Example C07_empty_chunks_nonvacuous :
+  let eof := {| t_err := EEOF; t_with_last := true |} in
+  let h := frame_header [49; 46; 48] 3 in
+  chunks_ok [[]; h; []; []; [7]; []; [8; 9]]
+  /\ c_Unmarshal 0 ([[]; h; []; []; [7]; []; [8; 9]], eof)
+       = Some (35, [49; 46; 48], None, Some [7; 8; 9], ([], eof))
+  /\ c_Unmarshal 0 ([[]; h; []; []; [7]; []; [8]], eof)
+       = Some (34, [49; 46; 48], Some EUnexpectedEOF, None, ([], eof))
+  /\ c_Stream 0 ([[]; h; []; []; [7]; []; [8; 9]], eof)
+       = Some ([(35, [49; 46; 48], None, [7; 8; 9], 35); (0, [], Some EEOF, [], 35)], ([], eof)).
+Proof. vm_compute. repeat split; try reflexivity. discriminate. Qed.
+
+Theorem C07_op_readheader : forall s pat t,
+  bytes_ok s -> all_pos pat = true -> zlen s < 2 ^ 63 ->
+  v_readheader_model (chunks_of pat s, t) = v_readheader (spec_ReadHeader s t).
+Proof. exact v_readheader_model_spec. Qed.
+Print Assumptions C07_op_readheader.
+
+Theorem C07_op_marshal : forall kind script m,
+  zlen (k_enc kind (snd m)) < 2 ^ 63 - 32 ->
+  script_ok script [32; zlen (k_enc kind (snd m))] = true ->
+  v_marshal_model kind script m = v_marshal_spec kind script m.
+Proof. exact v_marshal_model_spec. Qed.
+Print Assumptions C07_op_marshal.
+
+(** widening — ReadHeader combined with io.ReadFull by a user program (Model/PbcmplWalk.v)
+    on ARBITRARY bytes, any chunking, any terminal condition: it returns (never
+    panics) exactly the steps of the flat specification — short header, refusal of a
+    header size <> 32 / a negative or > 64 KiB body size, truncated body with the
+    error io.ReadFull owes (io.EOF when no body byte was there, io.ErrUnexpectedEOF,
+    or the injected error), complete body — and leaves exactly the bytes it says *)
+Theorem C07_walk_exact : forall cs t,
+  chunks_ok cs -> bytes_ok (concat cs) -> zlen (concat cs) < 2 ^ 63 ->
+  exists steps cs',
+    c_Walk (cs, t) = Some (steps, (cs', t))
+    /\ chunks_ok cs'
+    /\ spec_Walk (concat cs) t = (steps, concat cs').
+Proof. exact c_Walk_spec. Qed.
+Print Assumptions C07_walk_exact.
+
+Theorem C07_op_walk : forall s pat t,
+  bytes_ok s -> all_pos pat = true -> zlen s < 2 ^ 63 ->
+  v_walk_model (chunks_of pat s, t) = v_walk_spec s t.
+Proof. exact v_walk_model_spec. Qed.
+Print Assumptions C07_op_walk.
+
+Example C07_walk_nonvacuous :
+  let eof := {| t_err := EEOF; t_with_last := false |} in
+  let inj := {| t_err := EInjected; t_with_last := true |} in
+  let fr := frame [49; 46; 50; 46; 51] [7; 8; 9] in
+  c_Walk (chunks_of [5] (fr ++ firstn 34 fr), inj)
+    = Some ([(32, None, [49; 46; 50; 46; 51], 32, 3, [7; 8; 9], false);
+             (32, Some EInjected, [49; 46; 50; 46; 51], 32, 3, [7; 8], false)], ([], inj))
+  /\ c_Walk (chunks_of [5] (firstn 32 fr), eof)
+    = Some ([(32, Some EEOF, [49; 46; 50; 46; 51], 32, 3, [], false)], ([], eof))
+  /\ c_Walk (chunks_of [] (pad16 [97] ++ le64 32 ++ le64 (2 ^ 63) ++ [9; 9]), eof)
+    = Some ([(32, None, [97], 32, - 2 ^ 63, [], true)], ([[9; 9]], eof))
+  /\ spec_Walk (fr ++ firstn 34 fr) inj
+    = ([(32, None, [49; 46; 50; 46; 51], 32, 3, [7; 8; 9], false);
+        (32, Some EInjected, [49; 46; 50; 46; 51], 32, 3, [7; 8], false)], []).
+Proof. vm_compute. repeat split; reflexivity. Qed.
+
+(** widening — the error return of Marshal when proto.Marshal(msg) itself fails
+    (Model/PbcmplEncErr.v): count 0, that error, the writer untouched, for every writer
+    and every version (no panic even for a version longer than 16 bytes) *)
+Theorem C07_marshal_encode_error : forall (Msg W : Type) (enc : Msg -> option (list Z))
+    (write : W -> list Z -> Z * option perr * W) (w : W) (m : Msg) ver,
+  enc m = None -> Marshal_opt enc write w m ver = Some (0, encode_errclass, w).
+Proof. exact @Marshal_encode_error. Qed.
+Print Assumptions C07_marshal_encode_error.
 
 (** the defect repaired by /repo commit 815cf27: against the pre-fix Unmarshal
     (Model/LegacyPbcmpl.v: make([]byte, int64(BodySize)) then io.ReadFull) the "never
